@@ -6,6 +6,7 @@ import (
 	"math/big"
 	"math/rand"
 	"os"
+	"strings"
 	"sync"
 	"testing"
 
@@ -35,6 +36,7 @@ type txLine struct {
 	O []interface{}   `json:"o"`
 	M [][]interface{} `json:"m"`
 	X string          `json:"x"`
+	E bool            `json:"e"` // TxMustFail: an error is specified, at every presentation
 }
 
 // signatureValuesVc mirrors SignatureValuesVc of SigAlgebra (needed only to start from the honest presentation).
@@ -237,7 +239,7 @@ func (t *table) wireTx(q atx, x vrs) (*types.Transaction, []byte, error) {
 }
 
 var txPathName = map[string]string{"wire": "types.Sender(RLP-decoded)", "built": "types.Sender(WithSignature)",
-	"msg": "Transaction.AsMessage", "cached": "types.Sender(after Sender under the signing signer)", "api": "Transaction.WithSignature"}
+	"msg": "Transaction.AsMessage", "cached": "types.Sender(after Sender under the signing signer)", "api": "Transaction.WithSignature", "repeat": "types.Sender(same object, repeatedly)"}
 
 func ssKind(ss int) string {
 	switch {
@@ -305,6 +307,36 @@ func (t *table) evalTx(o, q atx, x vrs, alt int) (map[string]string, map[string]
 		types.Sender(t.signer(q.vc, 0), tx) // and under the signer the V claims
 		return verdict(types.Sender(V, tx))
 	})
+	// the same object presented again and again (types.Sender caches per transaction object): TxSender is a function
+	// of (signer, transaction) - the answers must not change, and an error stays an error
+	run("repeat", func() string {
+		tx, _, err := t.wireTx(q, x)
+		if err != nil {
+			return "stable-err"
+		}
+		type ans struct {
+			a   common.Address
+			bad bool
+		}
+		var as []ans
+		a, err := types.Sender(V, tx)
+		as = append(as, ans{a, err != nil})
+		a, err = types.Sender(V, tx)
+		as = append(as, ans{a, err != nil})
+		m, err := tx.AsMessage(V)
+		as = append(as, ans{m.From(), err != nil})
+		a, err = types.Sender(V, tx)
+		as = append(as, ans{a, err != nil})
+		for _, y := range as[1:] {
+			if y.bad != as[0].bad || (!y.bad && y.a != as[0].a) {
+				return fmt.Sprintf("unstable: %v", as)
+			}
+		}
+		if as[0].bad {
+			return "stable-err"
+		}
+		return "stable-addr"
+	})
 	if x.sig65 != nil && q.vc != 0 {
 		run("built", func() string {
 			tx, err := t.mkTx(q).WithSignature(t.signer(q.vc, 0), x.sig65)
@@ -347,6 +379,22 @@ func judgeTx(tb *table, l *txLine, n int, rng *rand.Rand) (fs []finding, evals i
 				"signer_of_original": fmt.Sprint(tb.signer(o.ss, 0).ChainID()), "verifier_signer": fmt.Sprintf("%T %v", tb.signer(q.vs, n), tb.signer(q.vs, n).ChainID()),
 				"tx": fmt.Sprintf("nonce=%d price=%v gas=%d to=%v value=%v data=%x", tb.nonce[q.nonce], tb.price[q.price], tb.gas[q.gas], tb.to[q.to], tb.value[q.value], tb.data[q.data])}
 			pfx := "sig:tx:" + o.meth + ":" + ssKind(o.ss) + ":" + mk + ":" + txPathName[path]
+			if path == "repeat" {
+				switch {
+				case real == "PANIC":
+					fs = append(fs, finding{path, "panic", "sig:panic:tx:" + q.f + ":repeat",
+						fmt.Sprintf("repeated types.Sender / AsMessage panics (%v) on a transaction with signature form %q", pans[path], q.f), detail})
+				case strings.HasPrefix(real, "unstable"):
+					fs = append(fs, finding{path, "unstable", "sig:tx:" + o.meth + ":" + ssKind(o.ss) + ":repeat:unstable",
+						fmt.Sprintf("the same transaction object (signed by %s under a %s signer, presented with [%s]) answers differently when its sender is derived again with the same signer (Sender, Sender, AsMessage, Sender: {address, failed} = %s); specified: TxSender is a function of signer and transaction",
+							o.meth, ssKind(o.ss), mk, real), detail})
+				case l.E && real != "stable-err":
+					fs = append(fs, finding{path, "accepted", pfx + ":no-error",
+						fmt.Sprintf("types.Sender returns NO error for a transaction (signed by %s under a %s signer) presented with [%s]; specified: rejected (foreign chain marker or malleable / malformed signature values)",
+							o.meth, ssKind(o.ss), mk), detail})
+				}
+				continue
+			}
 			switch {
 			case real == "PANIC":
 				fs = append(fs, finding{path, "panic", "sig:panic:tx:" + q.f + ":" + txPathName[path],
